@@ -17,7 +17,7 @@ func propC15() *Property {
 		Assumptions: []string{"config.Parsed is immutable after start-up (C08.R6)"},
 		Rules: []Rule{
 			{ID: "C15.R1", Title: "final wrap with the requested width in every renderer", Floor: 3, Run: c15R1},
-			{ID: "C15.R2", Title: "cache keyed by and stored with the width", Floor: 9, Run: c15R2},
+			{ID: "C15.R2", Title: "cache keyed by and stored with the width", Floor: 5, Run: c15R2},
 			{ID: "C15.R3", Title: "rendering has no side effects and no hidden inputs", Floor: 3, Run: c15R3},
 		},
 	}
